@@ -477,6 +477,68 @@ def class_state_rule(ctx, rule: str, class_names: Sequence[str], what: str) -> N
     ctx.rep.floor(rule, "classes examined for shared state", n, len(class_names))
 
 
+# ------------------------------------------------------------------ "same labware" tests compare identity
+def identity_eq_rule(ctx, rule: str, base: str = "Labware") -> None:
+    """`destination == source` decides whether one labware takes part in an operation or two (one log entry / one condense
+    per participant): objects of the labware classes must compare by identity. A `__eq__`/`__ne__` of a labware class that
+    compares anything else makes two different labwares "the same" at every such test."""
+    root = ctx.prog.class_by_name(base)
+    if root is None:
+        ctx.rep.inconclusive(rule, base, "class not found")
+        return
+    family = [root] + list(ctx.prog.subclasses(root))
+    # the comparison sites between two labware-typed names
+    sites = []
+    is_sites = 0
+    for f in ctx.prog.all_functions(include_inlined=True):
+        types = None
+        for sub in own_walk(f.node):
+            if isinstance(sub, ast.Compare) and len(sub.ops) == 1 and isinstance(sub.ops[0], (ast.Eq, ast.NotEq)) and isinstance(sub.left, ast.Name) and isinstance(sub.comparators[0], ast.Name):
+                if types is None:
+                    types = ctx.prog.local_types(f)
+                a, b = types.get(sub.left.id), types.get(sub.comparators[0].id)
+                if a in family and b in family:
+                    sites.append((f, sub))
+            elif isinstance(sub, ast.Compare) and len(sub.ops) == 1 and isinstance(sub.ops[0], (ast.Is, ast.IsNot)) and isinstance(sub.left, ast.Name) and isinstance(sub.comparators[0], ast.Name):
+                if types is None:
+                    types = ctx.prog.local_types(f)
+                if types.get(sub.left.id) in family and types.get(sub.comparators[0].id) in family:
+                    is_sites += 1
+
+    def identity(m) -> bool:
+        body = [s for s in m.node.body if not (isinstance(s, ast.Expr) and isinstance(s.value, ast.Constant))]
+        if len(body) != 1 or not isinstance(body[0], ast.Return) or body[0].value is None:
+            return False
+        v = body[0].value
+        if isinstance(v, ast.Name) and v.id == "NotImplemented":
+            return True
+        if isinstance(v, ast.UnaryOp) and isinstance(v.op, ast.Not):
+            v = v.operand
+        if isinstance(v, ast.Compare) and len(v.ops) == 1 and isinstance(v.ops[0], (ast.Is, ast.IsNot)):
+            return {ast.unparse(v.left), ast.unparse(v.comparators[0])} == set(m.params[:2])
+        if isinstance(v, ast.Call) and call_dotted(v) in ("object.__eq__", "object.__ne__", "super.__eq__", "super().__eq__", "super().__ne__"):
+            return True
+        return False
+
+    bad = []
+    for c in family:
+        for name_ in ("__eq__", "__ne__"):
+            m = c.methods.get(name_)
+            if m is not None:
+                ctx.rep.touch(m)
+                if not identity(m):
+                    bad.append((c, m))
+    if not sites:
+        bad = []  # every same-labware test is written with `is`: what __eq__ does is irrelevant to them
+    for c, m in bad:
+        where_ = "; ".join(f"`{ast.unparse(sub)}` in {f.qualname}" for f, sub in sites[:4]) or "no site found"
+        ctx.rep.refuted(rule, f"{m.qualname}", f"{c.name}.{m.name} does not compare identity: two different labwares that it calls equal are treated as one participant "
+                        f"by the same-labware tests ({where_}) - one of them is logged/condensed and the other is not", where=m.where())
+    if not bad:
+        ctx.rep.holds(rule, base, f"the {len(family)} labware classes compare by identity (no __eq__/__ne__ override); {len(sites)} same-labware tests rely on it")
+    ctx.rep.floor(rule, "same-labware comparison sites", len(sites) + is_sites, 3)
+
+
 # ------------------------------------------------------------------ numpy buffers that take their dtype from the first value
 def _value_kind(fv: FV, e: ast.AST, at: int, stringish: Sequence[str], depth: int = 0) -> Optional[str]:
     """'int' | 'float' | 'str' | None (unknown) for the value an expression produces; conditionally assigned names are
